@@ -85,6 +85,10 @@ type ctx struct {
 	o        *vrt.Obs
 	seen     map[string]int
 	keptURLs []keptURL
+	nParsed  int
+	// noEdit: the goroutines of a concurrent batch do not edit the URL values they own (if the library handed the same
+	// map to two of them the edits themselves would race, harness frames only; the sequential batches find such sharing)
+	noEdit bool
 }
 
 func (c *ctx) violate(key, format string, a ...any) *vrt.Violation {
@@ -107,7 +111,7 @@ func run(cs vrt.Case) vrt.Obs {
 		if p.Idx%4 == 3 {
 			// every fourth batch: four goroutines parse (and keep, and re-check) URLs of their own at the same time
 			vrt.Parallel(&o, 4, func(g int, po *vrt.Obs) {
-				pc := &ctx{o: po, seen: map[string]int{}}
+				pc := &ctx{o: po, seen: map[string]int{}, noEdit: true}
 				runTuples(pc, vrt.Rand(p.Seed, "c19-par", p.Idx, g), p.N/4)
 				po.Count("tuple_batches_parsed_while_other_goroutines_were_parsing", 1)
 			})
